@@ -813,7 +813,11 @@ class Executor:
         """Class-level attribute: evaluated once per path (mutable class state is per path)."""
         key = ('classattr', cinfo.module.name, cinfo.name, name)
         if key not in self.ctx.cache:
-            self.ctx.cache[key] = self.eval(expr, Env(cinfo.module))
+            v = self.eval(expr, Env(cinfo.module))
+            self.ctx.cache[key] = v
+            if isinstance(v, Obj) and v.cls is not None and v.cls.find_method('__set_name__'):
+                # descriptor protocol: type.__new__ calls __set_name__(owner, name)
+                self.call_repo(v.cls.find_method('__set_name__'), [ClassRef(cinfo), name], {}, v)
         return self.ctx.cache[key]
 
     def ev_Subscript(self, n, env):
